@@ -672,7 +672,8 @@ func TestProp(t *testing.T) {
 			"struct-based with three record layouts (string last with tags, string first untagged with pointer records, two strings with mixed-case tags and names; a fourth layout is written with the field-based API under the Go field names and read into a struct whose tags name no column, so that the match must come from the field name; a fifth layout has tags that are the Go names of other fields, so that the tag has to win over the name; geometry " +
 			"a third of the layout-A files is read with BOTH calls of one Decoder (DecodeRow and DecodeRowFields row by row in a drawn pattern); field decoded either as the concrete type or as geom.Geom; rows decoded into a fresh record or into one reused record variable) and field-based (NewEncoderFromFields/EncodeFields/DecodeRowFields, names matched in either case). " +
 			"The geometries handed to the encoder have their point lists cut out of one flat array (consecutive sub-slices with spare capacity), which must come back unchanged. Oracle: same number and order of records, coordinates bit-identical with line strings as parts, rings in stored order with unclosed rings closed, boxes as 5-vertex " +
-			"rectangles; ints equal, strings equal, floats within 5.1e-11; Decoder.Error nil. Non-trivial = >=2 records with string attributes of different lengths, or a multi-part geometry. Distinct by case hash.",
+			"rectangles; ints equal, strings equal, floats within 5.1e-11; Decoder.Error nil. Non-trivial = >=2 records with string attributes of different lengths, or a multi-part geometry. Distinct by case hash." +
+			" Round 9: boxes are expected back as five vertices spelled out (a box without height included).",
 		Assumptions: []string{"strings with leading/trailing blanks are excluded: DBF pads with blanks and the reader trims them", "a LineString is read back into a MultiLineString or geom.Geom field, never into a LineString field"},
 		Gen:         gen,
 		Run:         run,
